@@ -1317,11 +1317,77 @@ def rule_alloc_taint(prog, fixture=False):
             for l, rel, rr in (g.cmps(n) or []):
                 if rel in ("<", "<=") and same_expr(l, arg) and not t.tainted(fn, rr):
                     clamped = True
+            if not clamped and _bounded_by_delivery(fn, t, arg):
+                r.add(key, fn.loc(n), True, "grows with the data delivered so far plus a bounded chunk")
+                continue
             r.add(key, fn.loc(n), clamped, "clamped by a dominating upper bound" if clamped else
                   "%s is sized by `%s`, which derives from a 32-bit field of the image file (via %s) with no "
                   "upper bound: a tiny hostile file can demand gigabytes" %
                   (what, show(arg), ", ".join(r.info["sources"]) or "?"))
     return r
+
+
+def _bounded_by_delivery(fn, t, arg):
+    """arg is a sum whose tainted summands are all `requested - remaining`, remaining being a local that starts
+    at the requested amount and is only ever reduced by what a read call delivered: such a summand equals the
+    number of bytes actually delivered so far, which the file's real size bounds."""
+    IO = {"fread", "read", "gcount", "pread"}
+
+    def io_result(e):
+        e = strip_all(e)
+        for _ in range(3):
+            if e is not None and e.get("k") in ("CXXStaticCastExpr", "CStyleCastExpr", "CXXFunctionalCastExpr") and e.get("c"):
+                e = strip_all(e["c"][0])
+        if e is None:
+            return False
+        if is_call(e) and notpl(e.get("q") or "").split("::")[-1] in IO:
+            return True
+        if e.get("k") == "DeclRefExpr" and e.get("dk") == "Var":
+            for v in fn.walk():
+                if v.get("k") == "VarDecl" and v.get("d") == e["d"] and v.get("c"):
+                    return io_result(v["c"][0])
+        return False
+
+    def remaining_of(e):
+        """(requested decl, True) when e is a `remaining` variable."""
+        e = strip_all(e)
+        if e is None or e.get("k") != "DeclRefExpr" or e.get("dk") != "Var":
+            return None
+        init = None
+        for v in fn.walk():
+            if v.get("k") == "VarDecl" and v.get("d") == e["d"] and v.get("c"):
+                init = strip_all(v["c"][0])
+        if init is None or init.get("k") != "DeclRefExpr":
+            return None
+        for w in fn.walk():
+            if w.get("k") in ("BinaryOperator", "CompoundAssignOperator", "UnaryOperator") and w.get("op") in flow.ASSIGN_OPS | {"++", "--"} \
+                    and (strip_all(w["c"][0]) or {}).get("d") == e["d"]:
+                if not (w.get("op") == "-=" and io_result(w["c"][1])):
+                    return None
+        return init.get("d")
+
+    def delivered(e, depth=0):
+        e = strip_all(e)
+        if e is None or depth > 3:
+            return False
+        if e.get("k") == "BinaryOperator" and e.get("op") == "-":
+            req = remaining_of(e["c"][1])
+            return req is not None and (strip_all(e["c"][0]) or {}).get("d") == req
+        if e.get("k") == "DeclRefExpr" and e.get("dk") == "Var" and \
+                not any(d_ == e["d"] for x in fn.walk() for d_, _ in flow.written_decls(x) if x.get("k") not in ("VarDecl", "DeclStmt")):
+            for v in fn.walk():
+                if v.get("k") == "VarDecl" and v.get("d") == e["d"] and v.get("c"):
+                    return delivered(v["c"][0], depth + 1)
+        return False
+
+    def summands(e):
+        e = strip_all(e)
+        if e is not None and e.get("k") == "BinaryOperator" and e.get("op") == "+":
+            return summands(e["c"][0]) + summands(e["c"][1])
+        return [e]
+    parts = summands(arg)
+    return len(parts) >= 1 and all((not t.tainted(fn, p_)) or delivered(p_) for p_ in parts if p_ is not None) and \
+        any(delivered(p_) for p_ in parts if p_ is not None)
 
 
 # ---------------------------------------------------------------- R-C07-9
